@@ -34,7 +34,7 @@ FLOORS = {'IFACE': 40, 'LOOKBACK': 16, 'WRAP': 5, 'COND': 5, 'NOTEPERF': 5, 'PIA
 
 
 def E(t):
-  return ast.parse(t, mode='eval').body
+  return U.E(t)
 
 
 def run(ctx):
@@ -155,8 +155,9 @@ def lookback(ctx, cq):
     t = norm_text(early.test)
     dflt_e = None
     for c in ast.walk(early.test):
-      if isinstance(c, ast.Compare) and isinstance(c.ops[0], ast.Eq) and norm_text(c.left) == '%s[%s]' % (ev, pos):
-        dflt_e = norm_text(c.comparators[0])
+      sd = U.eq_sides(c, lambda a: norm_text(a) == '%s[%s]' % (ev, pos))
+      if sd:
+        dflt_e = norm_text(sd[1])
     dflt_d = norm_text(next((x.value for x in short.body if isinstance(x, ast.Return)), None)) if short is not None and short.body else None
     okd = dflt_e is not None and dflt_e == dflt_d and ('%s < self._lookback_distances[-1]' % pos) in t
   ctx.ob('LOOKBACK/%s/early-label' % tag, enc, early or enc.node, oke, 'before the last lookback distance a default event is labelled as "repeat last lookback"' if oke else
@@ -198,9 +199,9 @@ def lookback(ctx, cq):
       try:
         # special events: same label constant for the same event
         for k in (0, 1):
-          evt_e = [norm_text(c.comparators[0]) for (t, pol) in ep[k][0] for c in [t] if pol and isinstance(t, ast.Compare)][-1]
-          lab_d = [c for (t, pol) in dp[k][0] for c in [t] if pol and isinstance(t, ast.Compare)][-1]
-          ok = ok and nf.rat(ep[k][1]).equals(nf.rat(lab_d.comparators[0])) and norm_text(dp[k][1]) == evt_e
+          evt_e = [norm_text(U.eq_sides(c, lambda a: norm_text(a) == '%s[%s]' % (ev, pos))[1]) for (t, pol) in ep[k][0] for c in [t] if pol and isinstance(t, ast.Compare)][-1]
+          lab_d = [U.eq_sides(c, lambda a: norm_text(a) == cidx)[1] for (t, pol) in dp[k][0] for c in [t] if pol and isinstance(t, ast.Compare)][-1]
+          ok = ok and nf.rat(ep[k][1]).equals(nf.rat(lab_d)) and norm_text(dp[k][1]) == evt_e
         inv = nf.Builder({cidx: ep[2][1]}).rat(dp[2][1])
         ok = ok and inv.equals(nf.rat(E('%s[%s]' % (ev, pos))))
       except (nf.NFError, IndexError):
